@@ -486,6 +486,11 @@ func innerEqualType(type1, type2 SessionType, snapshots map[string]bool, labelle
 			return f1.Modality().Equals(f2.Modality())
 		}
 
+		// Assume that the pair being compared is equal (coinductive hypothesis). The pair is
+		// recorded as it is now, i.e. before the labels are expanded, since this is the form
+		// in which it is met again when following a cycle
+		snapshots[presentSnapshot.String()] = true
+
 		// Expand label/s
 		// This fetch operation (from the map) should succeed since we already check that all labels used are defined
 		if isLabel1 {
@@ -505,15 +510,6 @@ func innerEqualType(type1, type2 SessionType, snapshots map[string]bool, labelle
 				return false
 			}
 		}
-
-		// Add new snapshot
-		var newSnapshot bytes.Buffer
-		newSnapshot.WriteString(type1.String())
-		newSnapshot.WriteString(type1.Modality().String())
-		newSnapshot.WriteString("|")
-		newSnapshot.WriteString(type2.String())
-		newSnapshot.WriteString(type2.Modality().String())
-		snapshots[newSnapshot.String()] = true
 
 		return innerEqualType(type1, type2, snapshots, labelledTypesEnv)
 	}
